@@ -88,7 +88,100 @@ def cases(tier, seed):
         out.append({"id": "hist:" + ">".join(seq), "kind": "history",
                     "seq": seq, "ref": {o: refs[o] for o in seq}})
     mie_ref.ensure([mie_ref.req_homog(1.59 / H.NMED, H.K * 0.5)])
+    # the same numbers written in other numeric types (all of them exactly
+    # representable, so nothing but the type changes)
+    for th in NUMTYPE_TH:
+        out.append({"id": "numeric-types:%s" % th, "kind": "numtypes",
+                    "th": th})
     return out
+
+
+NUMTYPE_TH = ["Mie", "Mie-layered", "Mie-collection", "MieLens", "Lens(Mie)",
+              "Multisphere", "Tmatrix"]
+
+
+def _run_numtypes(case, ck):
+    """radius, index, centre and optics given as NumPy scalars of other
+    widths / as 0.5 = float32(0.5) = float16(0.5): the hologram is the one of
+    the plain Python numbers; failures (NaN) must not turn into values"""
+    import warnings
+    from holopy.scattering import (calc_holo, calc_field, Sphere, Spheres,
+                                   Spheroid, Mie, MieLens, Multisphere,
+                                   Tmatrix)
+    from holopy.scattering.theory import Lens
+    th = case["th"]
+    det = H.det_grid((3, 4), 0.25)
+
+    def build(R, N, C):
+        # R: converter for radii, N: for indices, C: for centre components
+        c = [C(0.25), C(0.5), C(5.0)]
+        if th == "Mie-layered":
+            return Sphere(n=[N(1.5), N(1.25)], r=[R(0.25), R(0.5)],
+                          center=c), Mie()
+        if th == "Mie-collection":
+            return Spheres([Sphere(n=N(1.5), r=R(0.5), center=c),
+                            Sphere(n=N(1.25), r=R(0.25),
+                                   center=[C(2.0), C(1.5), C(6.0)])]), Mie()
+        if th == "Multisphere":
+            return Spheres([Sphere(n=N(1.5), r=R(0.5), center=c),
+                            Sphere(n=N(1.25), r=R(0.25),
+                                   center=[C(1.0), C(1.5), C(5.5)])]), \
+                Multisphere()
+        if th == "Tmatrix":
+            return Spheroid(n=N(1.5), r=(R(0.25), R(0.5)),
+                            rotation=(0, 0.5, 0.25), center=c), Tmatrix()
+        theory = {"Mie": Mie, "MieLens": lambda: MieLens(0.75),
+                  "Lens(Mie)": lambda: Lens(0.75, Mie(False, False), 40,
+                                            40)}[th]()
+        return Sphere(n=N(1.5), r=R(0.5), center=c), theory
+
+    ident = lambda v: v
+    fps = []
+    with warnings.catch_warnings():
+        warnings.simplefilter("ignore")
+        scat, theory = build(ident, ident, ident)
+        ref = calc_holo(det, scat, H.NMED, H.WL, (1, 0), theory=theory).values
+    ck.trans += 1
+    ck.true("finite", bool(np.isfinite(ref).all()), "%s: reference hologram "
+            "is not finite" % th)
+    forms = [("radius float32", np.float32, ident, ident),
+             ("radius float16", np.float16, ident, ident),
+             ("radius np.float64", np.float64, ident, ident),
+             ("index float32", ident, np.float32, ident),
+             ("centre float32", ident, ident, np.float32),
+             ("centre float16", ident, ident, np.float16),
+             ("everything float32", np.float32, np.float32, np.float32)]
+    for name, R, N, C in forms:
+        with warnings.catch_warnings():
+            warnings.simplefilter("ignore")
+            scat, theory = build(R, N, C)
+            try:
+                h = calc_holo(det, scat, H.NMED, H.WL, (1, 0),
+                              theory=theory).values
+                f = calc_field(det, scat, H.NMED, H.WL, (1, 0),
+                               theory=theory).values
+            except Exception as e:
+                if H.is_refusal(e):
+                    continue
+                raise
+        ck.trans += 2
+        e = float(np.abs(h - ref).max()) if np.isfinite(h).all() else \
+            float("inf")
+        ck.metric("numeric-types", e if np.isfinite(e) else 1e300)
+        # HoloPy computes some intermediate quantities (k r, n / n_medium)
+        # in the width of the input: the agreement is that of the type
+        tol = 5e-3 if "float16" in name else (1e-6 if "float32" in name
+                                              else 1e-12)
+        ck.true("numeric-types", e <= tol, "%s, %s: the hologram differs "
+                "from the one computed with plain Python numbers by %.3g "
+                "(field finite: %s; hologram range %.4g .. %.4g)" %
+                (th, name, e, bool(np.isfinite(f).all()),
+                 float(np.nanmin(h)) if np.isfinite(h).any() else
+                 float("nan"),
+                 float(np.nanmax(h)) if np.isfinite(h).any() else
+                 float("nan")))
+        fps.append(fp_values(h))
+    return digest(*fps)
 
 
 def _op_digest(name):
@@ -411,13 +504,15 @@ def run_case(case):
         fp, outcome = _run_input(case, ck)
         return ck.result(fp=fp, outcome=outcome,
                          nontrivial=(outcome == "ok"))
+    if case["kind"] == "numtypes":
+        return ck.result(fp=_run_numtypes(case, ck))
     fp = _run_history(case, ck)
     return ck.result(fp=fp)
 
 
 def coverage_extra(cases, results):
     nin = sum(1 for c in cases if c["kind"] == "input")
-    nh = len(cases) - nin
+    nh = sum(1 for c in cases if c["kind"] == "history")
     refused = sum(1 for c, r in zip(cases, results)
                   if r.get("outcome") == "refused")
     return {"input_vectors": nin, "histories": nh,
